@@ -469,6 +469,15 @@ class Env:
         """Current value of the loop variable of loop `ordinal` (an enclosing loop)."""
         return self._vars[self._loops[ordinal]["var"]]
 
+    def loop_over(self, ordinal):
+        """(array parameter, axis) whose extent bounds loop `ordinal`, e.g. ("rates", 0) - lets an invariant be written
+        for "the loop over the rates" whatever its nesting depth (loop interchange does not disturb it)."""
+        return self._loops[ordinal].get("over")
+
+    def active_loops(self):
+        """Ordinals of the loops whose variable is bound in this state, outermost first."""
+        return [k for k in sorted(self._loops) if self._loops[k]["var"] in self._vars]
+
     def stored(self, ordinal):
         """The array the body of loop `ordinal` stores into (when there is exactly one)."""
         names = self._loops[ordinal]["arrays"]
@@ -939,15 +948,15 @@ class _Exec:
                     b = b.value
                 if isinstance(b, ast.Name) and isinstance(st.vars.get(b.id), (Arr, View)):
                     mod_arrays.add(b.id)
-        self.loops[ordinal] = {"var": ivar, "arrays": sorted(mod_arrays)}
+        self.loops[ordinal] = {"var": ivar, "arrays": sorted(mod_arrays), "over": _bound_source(it.args[0])}
         tag = f"loop{ordinal}@line{node.lineno}"
         entry_env = Env(self.entry.vars, self.entry.heap, self.ghost, self.loops)
 
         def inv_at(state, i):
             try:
                 return z3.And(*[_bool(c) for c in inv(entry_env, Env(state.vars, state.heap, self.ghost, self.loops), i)])
-            except KeyError as e:
-                raise Unsupported(f"invariant of loop {ordinal} refers to {e}, which is not defined at this point") from None
+            except (KeyError, TypeError) as e:
+                raise Unsupported(f"invariant of loop {ordinal} refers to {e}, which is not defined at this point (code restructured?)") from None
 
         # (1) holds on entry
         self.oblige(f"{tag}.invariant_holds_on_entry", st, inv_at(st, z3.IntVal(0)))
@@ -1037,6 +1046,17 @@ class _Exec:
                 out.vars.pop(name, None)
         out.pc += [inv_at(out, z3.If(n >= 0, n, 0))]  # range(n) with n <= 0 runs no iteration: exit index 0
         return [out]
+
+
+def _bound_source(node):
+    """`X.size` / `X.shape[k]` / `len(X)` -> (X, k): which array dimension a loop runs over (None if it is anything else)."""
+    if isinstance(node, ast.Attribute) and node.attr == "size" and isinstance(node.value, ast.Name):
+        return (node.value.id, 0)
+    if isinstance(node, ast.Subscript) and isinstance(node.value, ast.Attribute) and node.value.attr == "shape" and isinstance(node.value.value, ast.Name) and isinstance(node.slice, ast.Constant):
+        return (node.value.value.id, node.slice.value)
+    if isinstance(node, ast.Call) and isinstance(node.func, ast.Name) and node.func.id == "len" and len(node.args) == 1 and isinstance(node.args[0], ast.Name):
+        return (node.args[0].id, 0)
+    return None
 
 
 def _as_load(target):
